@@ -12,7 +12,7 @@ checks = []
 not_applicable = []
 for p in props:
     pid = p["id"]
-    e = table.get(pid)
+    e = table.get(pid) if pid in table.get("_ready", []) else None
     if e is None:
         not_applicable.append({"property_id": pid, "reason": na.get(pid, "check not built yet (work in progress); no claim is made")})
         continue
